@@ -11,3 +11,20 @@ import "reflect"
 func VerifIsTrivial(tp reflect.Type) bool {
 	return isTrivial(tp)
 }
+
+// VerifRawCopyFlags calls fn with the type and the "raw memory copy" flag of every registered component type
+// (column < 0) and of every column of every table (column >= 0) of the world.
+//
+// Only compiled with build tag "verif". Used by external verification harnesses.
+func VerifRawCopyFlags(w *World, fn func(table int, column int, tp reflect.Type, raw bool)) {
+	reg := &w.storage.registry
+	for tp, id := range reg.Components {
+		fn(-1, -1, tp, reg.IsTrivial[id])
+	}
+	for i := range w.storage.tables {
+		t := &w.storage.tables[i]
+		for j := range t.columns {
+			fn(i, j, t.columns[j].elemType, t.columns[j].isTrivial)
+		}
+	}
+}
